@@ -182,7 +182,9 @@ def check(mod, run, a):
                 continue
             t_ = prove.Task(None, 'axioms-consistent:%s' % ob.name, ax, z3.BoolVal(False), [('z3-5.1.0', 6), ('cvc5-1.0.3', 6)])
             t_.k = k; t_.what = 'axioms'; a_tasks.append(t_)
-        picks = obs_[:2] + obs_[-2:] + obs_[len(obs_) // 2: len(obs_) // 2 + 1]
+        # (relational obligations pair the path conditions of two runs: most pairs are contradictory by design)
+        obs2_ = [ob for ob in obs_ if not ob.name.startswith('relational:')]
+        picks = obs2_[:2] + obs2_[-2:] + obs2_[len(obs2_) // 2: len(obs2_) // 2 + 1]
         seen_ = set()
         for ob in picks:
             if id(ob) in seen_: continue
@@ -198,6 +200,8 @@ def check(mod, run, a):
             t_.k = k; t_.what = 'hyps'; a_tasks.append(t_)
     prove.run_tasks(a_tasks)
     a_res = {}
+    for i_, t_ in enumerate(a_tasks):
+        if os.environ.get('VERIF_DUMP_AUDIT') and t_.what == 'hyps' and t_.status == 'unsat': open('/tmp/audit_%d.smt2' % i_, 'w').write('; %s\n%s' % (t_.label, t_.smt2))
     for t_ in a_tasks:
         if t_.what == 'hyps': a_res.setdefault(t_.k, []).append(t_.status)
         elif t_.status == 'unsat':
